@@ -14,7 +14,8 @@ for d in sorted(glob.glob("/verif/seeded/*/meta.json")):
             orc = r["first"].split("oracle=")[1].split()[0]
         out.append(f"| {sid} | {(m.get('summary') or '')[:230]} | {(m.get('needs') or '')[:200]} | {'yes' if m['confirmed'] else 'NO'} | {p} | {r['exit']} | {orc} |")
 out += ["", f"{caught} of {n} seeded changes are reported (exit 1 with a replay file that reproduces in a fresh process).",
-"Round 1 (`<ID>-1`, `<ID>-2`): two changes per property from 17 agents. Round 2 (`<ID>-h1`): one deliberately hard-to-find change from 12 agents (narrow numeric coincidences, state carried across an error, rare knob combinations).",
+"Round 1 (`<ID>-1`, `<ID>-2`): two changes per property from 17 agents. Round 2 (`<ID>-h1`) and round 3 (`<ID>-g1`): one deliberately hard-to-find change each from 12 and 10 further agents (narrow numeric coincidences, state carried across an error, rare knob combinations).",
+"Round 3 items that led to new generator reach, all extended from the agent's description before the first measurement: C06-g1 (exactly 33 tied sources -> merges of up to 70 tiny sources, counts around powers of two), C10-g1 (V1 root offset beyond 4 GiB -> sparse simulated files whose root index sits behind a hole of 2^32..2^40 virtual bytes; a read inside the hole fails at once), C11-g1 (block larger than a 4 MiB read window + Interrupted -> entries of 4-6 MiB under scaled interrupting schedules), C15-g1 (index block landing exactly on the block size with a >=16384-byte key -> 'lander' files whose keys are as long as the block at levels 2-4), C17-g1 (overlapping copy once the sorter buffer exceeds 64 MiB -> reserved hook-free run at the shipped 1 GiB budget with ~150 MB of inserts). C03-g1, C04-g1, C05-g1, C12-g1, C18-g1 were reported by the checks as they stood.",
 "Changes that were missed by the version of the checks that existed when they arrived (round 1: C12-2, C16-1, C07-2, C17-2, C03-2; round 2: C07-h1, C16-h1 measured; the other round-2 items below were judged from the agent's description to be out of reach of the generators and the generators were extended before the first measurement), and what was strengthened (DESIGN.md section 9): C12-2 (flush omitted -> sinks may now buffer until flush), C16-1 (8-entry look-ahead -> C16 also builds files whose entries are block-sized), C07-2 (final flush skipped for zero-byte entries -> degenerate insert histories), C17-2 (dangling borrowed value -> worker deaths are attributed to the run; freed memory is poisoned; ASan shard), C03-2 and C03-h1 (stale state after a failed reload -> C03 transient-fault family), C08-h1 (merge trigger `==` after a failed create -> C08 transient-fault family), C01-h1/C09-h1/C02-h1 (entry length exactly 2^21 -> that framing boundary is now generated), C12-h1 (error dropped in the reverse prefix iterator -> prefixes whose successor is a stored key, one-entry-per-block layouts in fault scenarios), C11-h1 (vectored write resumed wrongly -> SimFile implements write_vectored with partial acceptance), C13-h1 (21-byte string -> every short suffix of each file is opened), C07-h1 (parallel stable sort unstable above 262144 entries -> reserved hook-free runs with ~500k tiny entries over 256 keys and a concatenating merge), C16-h1 (floor seek walking back over a prefix range -> probes that are proper prefixes of stored keys). After strengthening every one of them is reported.", "",
 "## Hand-written mutants and refactors", "", "| patch | baseline suite with patch | check | exit | oracle |", "|---|---|---|---|---|"]
 for l in open("/verif/mutants/RESULTS.tsv"):
